@@ -127,6 +127,9 @@ def _plan(tier):
 
 def _cfg(fam, m, n, tf, nl, pre, L, rot='on', dtype='alt', seed=0, big=None):
     M = 0 if rot != 'on' else (m + P_LEN + 1 if tf else m)
+    if rot == 'on' and tf and nl == 'mid':
+        # chunks of two lines: each line gets its own prefix, and the limit leaves room for both plus m payload bytes
+        M = m + 2 * (P_LEN + 1)
     cfg = {'fam': fam, 'rot': rot, 'max_bytes': M, 'backup_count': n, 'tf': tf, 'nl': nl, 'pre': pre,
            'dtype': dtype, 'seed': seed, 'sizes': list(range(1, m)), 'L': L, 'specials': [], 'nspecial': 0}
     if fam == 'B':
